@@ -703,7 +703,11 @@ func ruleLongHeldLockAcquisitions(c *Ctx, rule string) {
 	pos := map[string][]string{}
 	for f, k := range acq {
 		for _, cs := range p.Callers(f) {
-			key := p.fnKey(f) + "←" + p.cname(cs.caller)
+			callerName := p.cname(cs.caller)
+			if cs.caller.Parent() != nil && strings.Contains(callerName, "$deferred") {
+				callerName = p.cname(cs.caller.Parent()) // a deferred closure runs as part of its function's exit
+			}
+			key := p.fnKey(f) + "←" + callerName
 			counts[key]++
 			pos[key] = append(pos[key], p.ipos(cs.instr))
 			_ = k
